@@ -477,6 +477,16 @@ unsafe fn dispose_general_node<T: RcObject>(
                 vy!(1018, next_ptr.as_raw(), cnt_curr.as_raw());
                 let next_epoch =
                     modu.max(&[node_epoch as _, link_epoch as _, cnt_curr.epoch() as _]);
+                // The window of `modu` reaches two epochs past `curr_epoch`, but no stamp is ever
+                // written more than one epoch past it (the global epoch is at most one ahead of a
+                // pinned thread). A maximum that lands two ahead is the alias of a stamp that is 14
+                // epochs old. Writing it as it is would be wrong for a cascade that read the epoch
+                // one step earlier: there the residue falls off the window and reads as ancient.
+                let next_epoch = if modu.le(next_epoch, curr_epoch as isize + 1) {
+                    next_epoch
+                } else {
+                    (curr_epoch as isize + 1) % (1 << EPOCH_WIDTH)
+                };
                 let cnt_next = cnt_curr.sub_strong(1).with_epoch(next_epoch as _);
                 vy!(119, next_ptr.as_raw(), cnt_next.as_raw());
 
